@@ -6,7 +6,10 @@ process at the entry of that call (the call is not executed)."""
 import os, re, subprocess, resource, signal
 from . import tools
 
-SYSCALLS = ["mkdir", "openat", "write", "close", "unlink", "rmdir", "getdents64", "read"]
+SYSCALLS = ["mkdir", "openat", "write", "close", "unlink", "rmdir", "getdents64", "read",
+            # not used by the runtime as it stands; enumerated as soon as a tree starts using them
+            "pwrite64", "writev", "fallocate", "ftruncate", "rename", "renameat", "renameat2", "sendfile",
+            "copy_file_range", "fsync", "fdatasync", "unlinkat", "mkdirat", "link", "linkat"]
 LOGSIZE = 256 * 1024
 _LINE = re.compile(r"^(\d+)\s+(\w+)\((.*)\)\s+=\s+(-?\d+|\?)(.*)$")
 _RESUMED = re.compile(r"^(\d+)\s+<\.\.\. (\w+) resumed>(.*)\)\s+=\s+(-?\d+|\?)(.*)$")
